@@ -11,7 +11,7 @@ def run(ctx, chk):
              'flush follows; results discarded', floor=2)
     chk.rule('C18.3', 'D', 'set_data only stores the latch, and nothing else writes it (a transfer leaves SB as it is)', floor=2)
     chk.rule('C18.4', 'D', 'I/O offsets 1/2 (and only those) route to set_data/set_control; IO::set_byte is '
-             'reached only from memory_write_byte', floor=3)
+             'reached only from memory_write_byte; every SB/SC write path of memory_write_byte reaches it', floor=5)
     for cfg in ('default', 'jit'):
         prog = ctx.program(cfg)
         if not need(chk, prog, [r for r in STEP_ROOTS] + [SET_CONTROL, SET_DATA, IO_SET]):
@@ -145,6 +145,23 @@ def run(ctx, chk):
         else:
             chk.fail('C18.4', 'route:%s' % fn.split('::')[-1],
                      'IO::set_byte reaches %s for offsets %s, expected exactly [%#x]' % (fn, got, want), file, line)
+    # delivered: every path of memory_write_byte that serves SB / SC (0xff01, 0xff02) hands the write to IO::set_byte - no
+    # state-dependent shortcut (an OAM DMA in flight, a controller mode) drops it
+    from .. import busmodel as _bm
+    nd, badd = 0, None
+    for p in _bm.BusModel(facts).write_paths():
+        if p.get('status') != 'ok' or p['lo'] is None or p['hi'] < 0xff01 or p['lo'] > 0xff02:
+            continue
+        nd += 1
+        names = [str(e[1]) for e in p['result'].state.events if e[0] in ('call', 'dyn')]
+        if not any(n == IO_SET or n.endswith('IO::set_byte') for n in names):
+            badd = badd or ('a write to 0x%04x-0x%04x can return without calling IO::set_byte (calls on that path: %s)'
+                            % (p['lo'], p['hi'], names or 'none'))
+    if badd or not nd:
+        chk.fail('C18.4', 'delivered', 'memory_write_byte: %s' % (badd or 'no write path serving 0xff01-0xff02 found'),
+                 'src/mem.rs', None)
+    else:
+        chk.ok('C18.4', 'delivered', sample={'write paths serving SB/SC': nd, 'each calls': 'IO::set_byte(addr, value)'})
     for cfg in ('default', 'jit'):
         p2 = ctx.program(cfg)
         cs = sorted(set(c[0] for c in p2.callers(IO_SET)))
